@@ -35,6 +35,8 @@ import (
 	"sync"
 	"syscall"
 
+	"github.com/syndtr/goleveldb/leveldb"
+	"github.com/syndtr/goleveldb/leveldb/opt"
 	"github.com/syndtr/goleveldb/leveldb/storage"
 	"verifharness/lib/vlib"
 )
@@ -1531,11 +1533,72 @@ func (k *fsK) life(thorough bool) {
 	}
 }
 
+// danglingPendingProbe reproduces, on the real storage and a real DB, the known finding
+// pending-file-outlives-failed-setmeta: a setMeta that fails after writing CURRENT.<n> (rename or directory sync
+// error) leaves that file behind; newManifest then removes MANIFEST-<n> and gives the number back to the
+// allocator.  The file is harmless while MANIFEST-<n> does not exist, but as soon as a file of that name is
+// created again (the next newManifest, before it has written anything) GetMeta answers the unfinished manifest
+// and the DB cannot be opened.  Returns the description when the finding is present.
+func (k *fsK) danglingPendingProbe() (desc string) {
+	dir := k.tmp()
+	defer os.RemoveAll(dir)
+	db, err := leveldb.OpenFile(dir, nil)
+	if err != nil {
+		k.fail("dangling-pending probe: OpenFile: %v", err)
+		return ""
+	}
+	for i := 0; i < 20; i++ {
+		db.Put([]byte(fmt.Sprintf("k%02d", i)), []byte("v"), nil)
+	}
+	if err := db.Close(); err != nil {
+		k.fail("dangling-pending probe: Close: %v", err)
+		return ""
+	}
+	meta := func() (storage.FileDesc, error) {
+		st, err := storage.OpenFile(dir, true)
+		if err != nil {
+			return storage.FileDesc{}, err
+		}
+		defer st.Close()
+		return st.GetMeta()
+	}
+	cur, err := meta()
+	if err != nil {
+		k.fail("dangling-pending probe: GetMeta of a cleanly closed DB: %v", err)
+		return ""
+	}
+	n := cur.Num + 50
+	os.WriteFile(filepath.Join(dir, fmt.Sprintf("CURRENT.%d", n)), []byte(manifestName(n)+"\n"), 0o644)
+	if fd, err := meta(); err != nil || fd != cur {
+		k.fail("a pending CURRENT.%d naming a manifest that does not exist changes GetMeta: (%v, %v), expected %v", n, fd, err, cur)
+		return ""
+	}
+	// what Create(MANIFEST-<n>) does first
+	os.WriteFile(filepath.Join(dir, manifestName(n)), nil, 0o644)
+	fd, err := meta()
+	ro := &opt.Options{ReadOnly: true, ErrorIfMissing: true}
+	d2, oerr := leveldb.OpenFile(dir, ro)
+	if d2 != nil {
+		d2.Close()
+	}
+	switch {
+	case err == nil && fd == cur && oerr == nil:
+		return "" // not present
+	case err == nil && fd.Type == storage.TypeManifest && fd.Num == n && oerr != nil:
+		return fmt.Sprintf("directory of a cleanly closed DB (CURRENT -> %v) plus CURRENT.%d = %q left by a failed setMeta: harmless until an EMPTY file %s appears (newManifest re-using the number, before it has written a record); then GetMeta answers %v and leveldb.OpenFile fails with %q although %v and all its files are intact",
+			cur, n, manifestName(n)+"\n", manifestName(n), fd, oerr, cur)
+	default:
+		k.fail("dangling-pending probe: unexpected outcome: GetMeta (%v, %v), OpenFile %v", fd, err, oerr)
+		return ""
+	}
+}
+
 // fsModelChecks runs everything above; the (K) cases it returns are appended to the check's case files.
-func fsModelChecks(r *vlib.RNG, base string, thorough bool) (cases []kcase, fails []string, stats map[string]int, notes []string) {
+func fsModelChecks(r *vlib.RNG, base string, thorough bool) (cases []kcase, fails []string, stats map[string]int, notes []string, known map[string]string) {
+	known = map[string]string{}
 	root, err := os.MkdirTemp(base, "c18fsk")
 	if err != nil {
-		return nil, []string{"file storage model: cannot create a temporary directory: " + err.Error()}, map[string]int{}, nil
+		return nil, []string{"file storage model: cannot create a temporary directory: " + err.Error()}, map[string]int{}, nil, known
 	}
 	defer os.RemoveAll(root)
 	k := &fsK{r: r, root: root, stats: map[string]int{}}
@@ -1546,5 +1609,8 @@ func fsModelChecks(r *vlib.RNG, base string, thorough bool) (cases []kcase, fail
 	k.crashStates(crash, thorough)
 	k.killPoints(crash, thorough)
 	k.life(thorough)
-	return k.cases, k.fails, k.stats, k.notes
+	if d := k.danglingPendingProbe(); d != "" {
+		known["pending-file-outlives-failed-setmeta"] = d
+	}
+	return k.cases, k.fails, k.stats, k.notes, known
 }
